@@ -12,7 +12,7 @@ def main():
     thorough = sys.argv[2] if len(sys.argv) > 2 else None
     sec = open(os.path.join(VERIF, "doc", "section0.md")).read()
     st, nt, n, ok = design_tables.seeded_table(selflog)
-    sec = sec.replace("@@SEEDEDTABLE@@", st + "\n\n" + nt + "\n\n%d of %d seeded changes are detected by the quick tier of at least one owning check; every behaviour-preserving patch is silent." % (ok, n))
+    sec = sec.replace("@@SEEDEDTABLE@@", st + "\n\n" + nt + "\n\n%d of %d seeded changes are detected by at least one owning check (quick tier unless noted); every behaviour-preserving patch is silent." % (ok, n))
     sec = sec.replace("@@SIZES@@", design_tables.sizes_table(thorough))
     p = os.path.join(VERIF, "DESIGN.md")
     s = open(p).read()
